@@ -35,6 +35,13 @@ CLAIMS = {
         note='Assumes the extraction rules, Verus+Z3, Iterator::position / Option::is_some_and contracts (stated over the closure ensures, closure bodies are source text). No floating point involved.',
         technique='contract-based deductive verification (Verus) of mechanically extracted Rust functions + inductive ghost lemma over histories',
         ref='DESIGN 6 C14'),
+    'C04': dict(
+        text='Deductive proof (Verus) of the real text of eval_dependencies: it TERMINATES (decreases on the retry loop: no hang on cyclic or unsatisfiable dependencies), returns Ok only when every dependent variable '
+             'received a value (no partial answer), leaves non-dependent given values untouched, and - when dependent ids are not supplied by the caller - every dependent variable equals its defining function evaluated at the final state, '
+             'through chains, for EVERY iteration order of the HashMap (the order is universally quantified). Carried into Instance::evaluate in C05.',
+        note=A1 + 'Function::substitute / Instance::substitute (function-composition half of the property) are NOT covered: they rest on the BTreeMap-merge operator code (see C02 in DESIGN); the property is therefore only partially decided.',
+        technique='contract-based deductive verification (Verus) of mechanically extracted Rust functions; termination by decreases; value-locality lemmas by induction',
+        ref='DESIGN 6 C04'),
 }
 NA = {
     'C06': 'evaluate_samples is built from FnMut closures capturing &mut state and iterator adapters over HashMap<OrderedFloat,..>: rejected by Verus, far beyond measured Kani limits; leaf lookups alone do not decide the property (DESIGN 6 C06)',
